@@ -14,6 +14,7 @@ import (
 	"os"
 	"path"
 	"strings"
+	"time"
 
 	"github.com/pingcap/kvproto/pkg/metapb"
 	"github.com/pingcap/log"
@@ -76,6 +77,10 @@ type opJ struct {
 	FaultAfter  bool      `json:"fault_after,omitempty"` // the failing write is applied before the error
 	Garbage     bool      `json:"garbage,omitempty"`    // corrupt: invalid JSON instead of Rule
 	Retry       bool      `json:"retry,omitempty"`      // the same update as the previous operation, which failed with a storage error
+	// kind "overlap": update A is parked inside its first storage write (it holds RuleManager's lock), update B
+	// is started meanwhile; B must wait, and the outcome must be that of A then B
+	A *opJ `json:"a,omitempty"`
+	B *opJ `json:"b,omitempty"`
 }
 
 // ---------- building PD objects (always fresh: the manager keeps and mutates what it is given) ----------
@@ -166,7 +171,7 @@ func (o opJ) updateCoq() string {
 
 func (o opJ) isUpdate() bool {
 	switch o.Kind {
-	case "restart", "corrupt", "drop":
+	case "restart", "corrupt", "drop", "overlap":
 		return false
 	}
 	return true
@@ -379,7 +384,82 @@ func (w *world) exec(o opJ) stepOut {
 		} else {
 			w.kv.Plan(0, kvx13.None)
 		}
-		m := w.live
+		err = callUpdate(w.live, o)
+		writes = w.kv.Take()
+	}
+	if resS == "" {
+		resS = errRes(err)
+	}
+	return w.finish(o.coq(writes), resS, len(writes), false)
+}
+
+// execOverlap: A is parked inside its first storage write (holding RuleManager's lock), B is started
+// meanwhile and must wait; the two steps are reported as A then B (the state in between is not observable).
+func (w *world) execOverlap(R *res.Result, o opJ) []stepOut {
+	if w.live == nil {
+		return []stepOut{w.exec(*o.A), w.exec(*o.B)}
+	}
+	// how many writes does A issue? (dry run on a copy of the storage)
+	nA := 0
+	{
+		c := w.kv.Clone()
+		m2 := placement.NewRuleManager(core.NewStorage(c), nil)
+		if m2.Initialize(3, nil) == nil {
+			c.Plan(0, kvx13.None)
+			_ = callUpdate(m2, *o.A)
+			nA = len(c.Take())
+		}
+	}
+	if nA == 0 { // nothing to park at: plain sequence
+		return []stepOut{w.exec(*o.A), w.exec(*o.B)}
+	}
+	w.kv.PlanPark(1)
+	doneA, doneB := make(chan error, 1), make(chan error, 1)
+	go func() { doneA <- callUpdate(w.live, *o.A) }()
+	select {
+	case <-w.kv.Parked():
+	case errA := <-doneA: // A did not reach the storage after all
+		writes := w.kv.Take()
+		a := w.finish(o.A.coq(writes), errRes(errA), len(writes), false)
+		return []stepOut{a, w.exec(*o.B)}
+	case <-time.After(10 * time.Second):
+		panic("overlap: A neither parked nor done")
+	}
+	go func() { doneB <- callUpdate(w.live, *o.B) }()
+	var errB error
+	early := false
+	select {
+	case errB = <-doneB:
+		early = true
+		// a content rejection (adjustRule) legitimately returns before the lock is taken and touches nothing
+		if errRes(errB) != "(RErr EContent)" {
+			R.Violate("C13:concurrent-update-not-serialised",
+				"an update completed ("+errRes(errB)+") while another update was inside its storage write (RuleManager's lock does not cover the whole update)", o)
+		} else {
+			R.Count("overlap:b-rejected-before-lock")
+		}
+	case <-time.After(25 * time.Millisecond):
+	}
+	w.kv.Release()
+	errA := <-doneA
+	if !early {
+		errB = <-doneB
+	}
+	writes := w.kv.Take()
+	if nA > len(writes) {
+		nA = len(writes)
+	}
+	a := w.finish(o.A.coq(writes[:nA]), errRes(errA), nA, true)
+	w.prevLive = "\x00not observed"
+	b := w.finish(o.B.coq(writes[nA:]), errRes(errB), len(writes)-nA, false)
+	R.Count("overlap:parked")
+	return []stepOut{a, b}
+}
+
+// callUpdate issues one update on the real RuleManager.
+func callUpdate(m *placement.RuleManager, o opJ) error {
+	var err error
+	{
 		switch o.Kind {
 		case "set":
 			err = m.SetRule(o.Rule.pd())
@@ -418,15 +498,20 @@ func (w *world) exec(o opJ) stepOut {
 		default:
 			panic("unknown op kind " + o.Kind)
 		}
-		writes = w.kv.Take()
 	}
-	if resS == "" {
-		resS = errRes(err)
-	}
+	return err
+}
+
+// finish dumps the observers after a step (skip = the state is not observable: printed as DSkip).
+func (w *world) finish(opCoq, resS string, nWrites int, skip bool) stepOut {
 	var out stepOut
 	out.res = resS
-	out.nWrites = len(writes)
-	out.opCoq = o.coq(writes)
+	out.nWrites = nWrites
+	out.opCoq = opCoq
+	if skip {
+		out.obsCoq = "PObs " + resS + " DSkip DSkip"
+		return out
+	}
 	live, liveTxt := "DNone", ""
 	if w.live != nil {
 		d := dump(w.live)
@@ -780,6 +865,229 @@ func genSweep(r *rng.R) []caseJ {
 	return out
 }
 
+// ---------- large index: thousands of rules with nested / adjacent ranges against a brute-force oracle (Go side) ----------
+// The Coq theorems about the index are general; this class runs the real buildRuleList / lookups at a size the
+// Coq replay does not reach and compares them with an independent computation from the rule set.
+type bigRule struct {
+	g, id      string
+	gi, index  int
+	override   bool
+	start, end []byte
+}
+
+func lessRule(a, b bigRule) bool {
+	switch {
+	case a.gi != b.gi:
+		return a.gi < b.gi
+	case a.g != b.g:
+		return a.g < b.g
+	case a.index != b.index:
+		return a.index < b.index
+	}
+	return a.id < b.id
+}
+
+func largeIndex(R *res.Result, r *rng.R, n int, seedTag string) {
+	m := placement.NewRuleManager(core.NewStorage(kv.NewMemoryKV()), nil)
+	if err := m.Initialize(3, nil); err != nil {
+		panic(err)
+	}
+	groups := []string{"a", "b", "c", "d", "e", "f"}
+	gidx := map[string]int{"pd": 0}
+	for i, g := range groups {
+		gidx[g] = (i * 7) % 4
+		if err := m.SetRuleGroup(&placement.RuleGroup{ID: g, Index: gidx[g]}); err != nil {
+			panic(err)
+		}
+	}
+	key := func(x int) []byte { return []byte{byte(x >> 8), byte(x)} }
+	grid := 60 + r.Intn(400)
+	all := []bigRule{{g: "pd", id: "default"}}
+	var prs []*placement.Rule
+	for i := 0; i < n; i++ {
+		b := bigRule{g: groups[r.Intn(len(groups))], id: fmt.Sprintf("r%d", i), index: r.Intn(4), override: r.Pct(3)}
+		b.gi = gidx[b.g]
+		x := r.Intn(grid)
+		switch r.Pick(35, 30, 20, 15) {
+		case 0: // short
+			b.start, b.end = key(x*16), key((x+1+r.Intn(3))*16)
+		case 1: // nested in something wide
+			y := x + 1 + r.Intn(grid)
+			b.start, b.end = key(x*16), key(y*16)
+		case 2: // unbounded
+			b.start = key(x * 16)
+		case 3: // adjacent chains share boundaries; sometimes a longer key right after a boundary
+			b.start, b.end = append(key(x*16), 0), key((x+1)*16)
+		}
+		all = append(all, b)
+		prs = append(prs, &placement.Rule{GroupID: b.g, ID: b.id, Index: b.index, Override: b.override,
+			StartKeyHex: hex.EncodeToString(b.start), EndKeyHex: hex.EncodeToString(b.end),
+			Role: []placement.PeerRoleType{placement.Voter, placement.Follower, placement.Learner}[r.Intn(3)], Count: 1})
+	}
+	if err := m.SetRules(prs); err != nil {
+		R.Violate("C13:large-index:valid-rule-set-rejected", fmt.Sprintf("SetRules of %d valid rules (%s): %v", n, seedTag, err), seedTag)
+		return
+	}
+	R.Count(fmt.Sprintf("large-index:rules>=%d", n/1000*1000))
+	covers := func(b bigRule, k []byte) bool {
+		return bytesCmp(b.start, k) <= 0 && (len(b.end) == 0 || bytesCmp(k, b.end) < 0)
+	}
+	var bounds [][]byte
+	for _, b := range all {
+		bounds = append(bounds, b.start)
+		if len(b.end) > 0 {
+			bounds = append(bounds, b.end)
+		}
+	}
+	expectByKey := func(k []byte) []bigRule {
+		var out []bigRule
+		for _, b := range all {
+			if covers(b, k) {
+				out = append(out, b)
+			}
+		}
+		sortBig(out)
+		return out
+	}
+	// the override specification: drop everything before the last overriding group (none here), and inside a group
+	// everything before its last overriding rule
+	expectApply := func(rs []bigRule) []bigRule {
+		var out []bigRule
+		for i := 0; i < len(rs); {
+			j := i
+			for j < len(rs) && rs[j].g == rs[i].g {
+				j++
+			}
+			from := i
+			for q := i; q < j; q++ {
+				if rs[q].override {
+					from = q
+				}
+			}
+			out = append(out, rs[from:j]...)
+			i = j
+		}
+		return out
+	}
+	same := func(got []*placement.Rule, exp []bigRule) bool {
+		if len(got) != len(exp) {
+			return false
+		}
+		for i := range got {
+			if got[i].GroupID != exp[i].g || got[i].ID != exp[i].id {
+				return false
+			}
+		}
+		return true
+	}
+	randKey := func() []byte {
+		b := bounds[r.Intn(len(bounds))]
+		switch r.Pick(40, 20, 20, 20) {
+		case 0:
+			return b
+		case 1:
+			return append(append([]byte{}, b...), 0)
+		case 2:
+			if len(b) > 0 && b[len(b)-1] > 0 {
+				c := append([]byte{}, b...)
+				c[len(c)-1]--
+				return append(c, 0xff)
+			}
+			return b
+		}
+		return key(r.Intn(grid * 16))
+	}
+	for i := 0; i < 300; i++ {
+		k := randKey()
+		if !same(m.GetRulesByKey(k), expectByKey(k)) {
+			R.Violate("C13:large-index:GetRulesByKey", fmt.Sprintf("%d rules (%s): GetRulesByKey(%x) differs from the rules containing the key in compareRule order", n, seedTag, k), seedTag)
+			return
+		}
+	}
+	for i := 0; i < 300; i++ {
+		s0, e0 := randKey(), randKey()
+		if r.Pct(15) {
+			e0 = nil
+		}
+		inside := false
+		for _, b := range bounds {
+			if bytesCmp(b, s0) > 0 && (len(e0) == 0 || bytesCmp(b, e0) < 0) {
+				inside = true
+			}
+		}
+		got := m.GetRulesForApplyRegion(core.NewRegionInfo(&metapb.Region{Id: 1, StartKey: s0, EndKey: e0}, nil))
+		var exp []bigRule
+		if !inside {
+			exp = expectApply(expectByKey(s0))
+		}
+		if (got == nil) != (exp == nil) || !same(got, exp) {
+			R.Violate("C13:large-index:GetRulesForApplyRegion", fmt.Sprintf("%d rules (%s): GetRulesForApplyRegion(%x,%x) is not the override-filtered rule set of its segment / nil", n, seedTag, s0, e0), seedTag)
+			return
+		}
+		var expSplit [][]byte
+		seen := map[string]bool{}
+		for _, b := range bounds {
+			if bytesCmp(b, s0) > 0 && (len(e0) == 0 || bytesCmp(b, e0) < 0) && !seen[string(b)] {
+				seen[string(b)] = true
+				expSplit = append(expSplit, b)
+			}
+		}
+		sortKeys(expSplit)
+		gs := m.GetSplitKeys(s0, e0)
+		ok := len(gs) == len(expSplit)
+		for j := 0; ok && j < len(gs); j++ {
+			ok = bytesCmp(gs[j], expSplit[j]) == 0
+		}
+		if !ok {
+			R.Violate("C13:large-index:GetSplitKeys", fmt.Sprintf("%d rules (%s): GetSplitKeys(%x,%x) is not the set of boundaries strictly inside", n, seedTag, s0, e0), seedTag)
+			return
+		}
+	}
+}
+
+func bytesCmp(a, b []byte) int { return strings.Compare(string(a), string(b)) }
+func sortBig(l []bigRule) {
+	for i := 1; i < len(l); i++ {
+		for j := i; j > 0 && lessRule(l[j], l[j-1]); j-- {
+			l[j], l[j-1] = l[j-1], l[j]
+		}
+	}
+}
+func sortKeys(l [][]byte) {
+	for i := 1; i < len(l); i++ {
+		for j := i; j > 0 && bytesCmp(l[j], l[j-1]) < 0; j-- {
+			l[j], l[j-1] = l[j-1], l[j]
+		}
+	}
+}
+
+// ---------- overlapping updates ----------
+func genOverlap(r *rng.R) caseJ {
+	g := &gen{r: r, known: map[[2]string]ruleJ{{"pd", "default"}: {G: "pd", I: "default", Role: "voter", Count: 3}}}
+	ops := []opJ{{Kind: "restart", MaxReplicas: 3}}
+	wb := newWorld()
+	wb.exec(ops[0])
+	upd := func() opJ {
+		for {
+			o := g.next(false)
+			o.FaultN = 0
+			if o.isUpdate() {
+				return o
+			}
+		}
+	}
+	for k := 0; k < 1+r.Intn(4); k++ {
+		o := upd()
+		ops = append(ops, o)
+		g.learn(o, wb.exec(o).res == "ROk")
+	}
+	for k := 0; k < 1+r.Intn(3); k++ {
+		a, b := upd(), upd()
+		ops = append(ops, opJ{Kind: "overlap", A: &a, B: &b})
+	}
+	return caseJ{Stream: "overlap", Ops: ops}
+}
+
 // ---------- big configurations: the restart path pages through the storage (LoadRangeByPrefix) ----------
 // ids form strict-prefix chains (every key is a strict prefix of its successor), some with a 0x00 byte
 func chainID(head string, j int, nul bool) string {
@@ -861,7 +1169,17 @@ func runCase(R *res.Result, c caseJ, r *rng.R) (caseJ, caseOut) {
 	}
 	var ops, obs []string
 	accepted, rejected, faulted, multi := 0, 0, 0, false
-	step := func(o opJ) stepOut {
+	var step func(o opJ) stepOut
+	step = func(o opJ) stepOut {
+		if o.Kind == "overlap" {
+			outs := w.execOverlap(R, o)
+			for _, out := range outs {
+				ops = append(ops, out.opCoq)
+				obs = append(obs, out.obsCoq)
+			}
+			R.Count("op:overlap")
+			return outs[len(outs)-1]
+		}
 		out := w.exec(o)
 		ops = append(ops, out.opCoq)
 		obs = append(obs, out.obsCoq)
@@ -938,6 +1256,8 @@ func main() {
 	n := flag.Int("n", 300, "number of generated cases")
 	out := flag.String("out", ".", "output directory")
 	tier := flag.String("tier", "quick", "")
+	large := flag.Int("large", 3, "number of large-index runs (1500..3500 rules, brute-force oracle on the Go side)")
+	overlaps := flag.Int("overlaps", 15, "number of cases with overlapping updates (one parked inside its storage write)")
 	sweeps := flag.Int("sweeps", 12, "number of systematic fault sweeps (a failure at each write of a multi-write update, before/after, + retry)")
 	big := flag.Int("big", 1, "number of big-configuration cases (> 200 rules, > 100 groups, restarts) per kv backend")
 	etcdBig := flag.Bool("etcd", true, "also run the big cases on PD's etcd kv.Base")
@@ -947,7 +1267,7 @@ func main() {
 	log.ReplaceGlobals(zap.NewNop(), nil)
 
 	R := res.New("C13", *seed, *tier)
-	R.Rule = "streams: bigload (restart after > 100 / > 200 rules and > 100 groups whose ids form strict-prefix chains, on the memory kv and on PD's etcd kv.Base), faultsweep (a storage failure at EACH write of a multi-write update, before/after, then the retry), and random histories of 6..20 operations (SetRule 30%, DeleteRule 12%, SetRules 6%, Batch 10% incl. delete-by-prefix, SetRuleGroup 13%, " +
+	R.Rule = "streams: bigload (restart after > 100 / > 200 rules and > 100 groups whose ids form strict-prefix chains, on the memory kv and on PD's etcd kv.Base), overlap (update A parked inside its first storage write while update B is issued: B must wait, the outcome is A then B), faultsweep (a storage failure at EACH write of a multi-write update, before/after, then the retry), and random histories of 6..20 operations (SetRule 30%, DeleteRule 12%, SetRules 6%, Batch 10% incl. delete-by-prefix, SetRuleGroup 13%, " +
 		"DeleteRuleGroup 5%, SetGroupBundle 8%, SetAllGroupBundles 4%, DeleteGroupBundle 4%, restart 3%, foreign storage writes 5% in the " +
 		"malformed stream = 15% of the cases) over 4 groups x 5 rule ids, key ranges from the pool {'',10,20,2010,30,40,50} (whole space 50%, " +
 		"unbounded 25%, bounded 25%), 8% invalid rule contents, a storage fault at write 1..3 (before/after) on 14% of the updates, retried " +
@@ -1005,6 +1325,10 @@ func main() {
 		}
 	} else {
 		master := rng.New(*seed)
+		for k := 0; k < *large; k++ {
+			lr := master.Fork(uint64(5000000 + k))
+			largeIndex(R, lr, 1500+lr.Intn(2000), fmt.Sprintf("seed %d large-index run %d", *seed, k))
+		}
 		for k := 0; k < *big; k++ {
 			emit(genBig(master.Fork(uint64(2000000+k)), false), nil)
 			if *etcdBig {
@@ -1015,6 +1339,9 @@ func main() {
 			for _, c := range genSweep(master.Fork(uint64(1000000 + k))) {
 				emit(c, nil)
 			}
+		}
+		for k := 0; k < *overlaps; k++ {
+			emit(genOverlap(master.Fork(uint64(4000000+k))), nil)
 		}
 		for k := 0; k < *n; k++ {
 			r := master.Fork(uint64(k))
